@@ -636,6 +636,10 @@ example : Codec.decIsKey ⟨false, 1, -1⟩ 4591870180066957721 = false := by de
 example : ¬ (Codec.decIsKey ⟨false, 1, -1⟩ 4591870180066957722 = true ∧
     Codec.decIsKey ⟨false, 1, -1⟩ (4591870180066957722 + 1) = true) :=
   C04_decimal_adjacent_excl _ _ (by decide) (by decide)
+-- 1<<60 = 0x43B0000000000000 (key 1083·2^52), text "1152921504606846976"
+example : Codec.decIsKey ⟨false, (2 ^ 52 + 4877398396442247168 % 2 ^ 52) * 2 ^ 8, 0⟩ ((4877398396442247168 : Nat) : Int) = true :=
+  C04_decimal_exact_int_accepted 4877398396442247168 8 (by decide) (by decide)
+example : (2 ^ 52 + 4877398396442247168 % 2 ^ 52) * 2 ^ 8 = 1152921504606846976 := by decide
 -- -0.1
 example : Codec.decIsKey ⟨true, 1, -1⟩ (-4591870180066957722) = true := by decide
 
